@@ -1752,6 +1752,9 @@ pub fn families(check: &str, tier: &str) -> Vec<Box<dyn Family>> {
                 ctx.sub_eval();
                 o2::c10_linear(x, cis, c, ctx);
                 ctx.sub_eval();
+                // (hard tabs know no 255-column budget: continuation tabs stay linear beyond ci x tw = 255)
+                o2::c10_linear(x, cis_sat, c, ctx);
+                ctx.sub_eval();
                 o2::c10_units(x, tws, cis_sat, c, ctx);
             };
             let d = if quick { 1 } else { 2 };
@@ -1761,6 +1764,18 @@ pub fn families(check: &str, tier: &str) -> Vec<Box<dyn Family>> {
                     body(&t[1], c, ctx);
                 })),
                 sf("c10", &wf_seeds(), &bases[..if quick { 1 } else { 2 }], Box::new(move |s, c, ctx| body(&s.text, c, ctx))),
+                // indentations wider than 65 535 columns (every 16-bit column count overflows)
+                tf("c10deep", Texts { name: "300-nested-blocks-and-continuations".into(), items: vec![
+                    format!("{}x;{}", "begin ".repeat(300), " end;".repeat(300)),
+                    format!("{}x := f(a, // c\n b);{}", "begin ".repeat(270), " end;".repeat(270)),
+                ] }, &bases[..1], Box::new(|x, c, ctx| {
+                    for (tw, ci) in [(255u8, 0u8), (255, 1), (2, 2)] {
+                        ctx.sub_eval();
+                        o2::c10_pair(x, tw, ci, c, ctx);
+                    }
+                    ctx.sub_eval();
+                    o2::c10_units(x, &[255], &[0, 1], c, ctx);
+                })),
             ]
         }
         "C11" => {
@@ -1831,6 +1846,7 @@ pub fn families(check: &str, tier: &str) -> Vec<Box<dyn Family>> {
                     tf("c13", lit_texts(1), &one, or_c13()),
                     tf("c13", LongTokens { max_len: 100 }, &one, or_c13()),
                     tf("c13", TokenTails, &one, or_c13()),
+                    tf("c13", Texts { name: "directive-expressions".into(), items: crate::alphabet::directive_expressions() }, &one, or_c13()),
                     prog_variants("c13", &g(1), 1, &one, vo_cd, f_c13),
                     seed_texts("c13", &all_seeds(), &one, f_c13),
                 ]
@@ -1845,6 +1861,7 @@ pub fn families(check: &str, tier: &str) -> Vec<Box<dyn Family>> {
                     tf("c13", lit_texts(2), &one, or_c13()),
                     tf("c13", LongTokens { max_len: 300 }, &one, or_c13()),
                     tf("c13", TokenTails, &one, or_c13()),
+                    tf("c13", Texts { name: "directive-expressions".into(), items: crate::alphabet::directive_expressions() }, &one, or_c13()),
                     prog_variants("c13", &g(2), 2, &one, vo_cd, f_c13),
                     seed_texts("c13", &all_seeds(), &C_QUICK, f_c13),
                 ]
@@ -1896,17 +1913,36 @@ pub fn families(check: &str, tier: &str) -> Vec<Box<dyn Family>> {
                 }
                 out
             };
+            // every list of up to three files over {anon-short, anon-long, same-length-change}, narrow width, no
+            // re-indentation of multi-line strings (another path through the line wrapper)
+            let shape_lists = || {
+                let ks = [8usize, 9, 0];
+                let mut out: Vec<Vec<usize>> = vec![];
+                for a in ks {
+                    out.push(vec![a]);
+                    for b in ks {
+                        out.push(vec![a, b]);
+                        for c in ks {
+                            out.push(vec![a, b, c]);
+                        }
+                    }
+                }
+                out
+            };
+            let narrow_no_fms = cfg::DEFAULT.with(|c| { c.wrap = 60; c.fms = false; });
             if quick {
                 vec![
-                    Box::new(C18Family { lists: lists(2, n), workers: vec![1, 2], modes: vec!["files", "check"], bound: 2, aliased: false }),
-                    Box::new(C18Family { lists: lists(3, 5), workers: vec![2, 3], modes: vec!["files"], bound: 1, aliased: false }),
-                    Box::new(C18Family { lists: lists(1, 4), workers: vec![2], modes: vec!["files"], bound: 2, aliased: true }),
+                    Box::new(C18Family { lists: lists(2, n), workers: vec![1, 2], modes: vec!["files", "check"], bound: 2, aliased: false, cfg: cfg::DEFAULT }),
+                    Box::new(C18Family { lists: lists(3, 5), workers: vec![2, 3], modes: vec!["files"], bound: 1, aliased: false, cfg: cfg::DEFAULT }),
+                    Box::new(C18Family { lists: lists(1, 4), workers: vec![2], modes: vec!["files"], bound: 2, aliased: true, cfg: cfg::DEFAULT }),
+                    Box::new(C18Family { lists: shape_lists(), workers: vec![1, 2], modes: vec!["files", "check"], bound: 2, aliased: false, cfg: narrow_no_fms }),
                 ]
             } else {
                 vec![
-                    Box::new(C18Family { lists: lists(3, n), workers: vec![1, 2, 3], modes: vec!["files", "check"], bound: 2, aliased: false }),
-                    Box::new(C18Family { lists: lists(2, n), workers: vec![2, 3], modes: vec!["files", "check"], bound: 3, aliased: false }),
-                    Box::new(C18Family { lists: lists(2, 5), workers: vec![2, 3], modes: vec!["files", "check"], bound: 3, aliased: true }),
+                    Box::new(C18Family { lists: lists(3, n), workers: vec![1, 2, 3], modes: vec!["files", "check"], bound: 2, aliased: false, cfg: cfg::DEFAULT }),
+                    Box::new(C18Family { lists: lists(2, n), workers: vec![2, 3], modes: vec!["files", "check"], bound: 3, aliased: false, cfg: cfg::DEFAULT }),
+                    Box::new(C18Family { lists: lists(2, 5), workers: vec![2, 3], modes: vec!["files", "check"], bound: 3, aliased: true, cfg: cfg::DEFAULT }),
+                    Box::new(C18Family { lists: shape_lists(), workers: vec![1, 2, 3], modes: vec!["files", "check"], bound: 3, aliased: false, cfg: narrow_no_fms }),
                 ]
             }
         }
